@@ -314,4 +314,82 @@ theorem cbcHmac_errors_partial (C : BlockCipher) (M : Mac) (hM : M.Lawful) (K : 
   | none => simp
   | some pt => simp [hne]
 
+/-! ### toy instance, D5 witness, MAC input framing -/
+
+theorem toyCipher_lawful : toyCipher.Lawful where
+  enc_len := by intro k b h; simp [toyCipher, xorByte, h]
+  dec_len := by intro k b h; simp [toyCipher, xorByte, h]
+  dec_enc := by
+    intro k b _
+    simp only [toyCipher, xorByte, List.map_map]
+    have : ((fun x : UInt8 => x ^^^ k.headD 0) ∘ fun x => x ^^^ k.headD 0) = id := by
+      funext x; simp [UInt8.xor_assoc]
+    rw [this, List.map_id]
+
+theorem toyMac_lawful (n : Nat) : (toyMac n).Lawful where
+  mac_len := by intro k m; simp [toyMac]
+
+/-- two forgeries of the same length with wrong tags, answered differently on the pinned tree -/
+theorem d5_witness :
+    cbcHmacDecrypt false toyCipher (toyMac 32) 16 (zeros 32) (zeros 16 ++ List.replicate 16 1) (zeros 16) [] = .err cbcDecErr ∧
+    cbcHmacDecrypt false toyCipher (toyMac 32) 16 (zeros 32) (List.replicate 16 16 ++ List.replicate 16 1) (zeros 16) [] = .err aeadDecErr := by
+  decide
+
+
+theorem cbcHmac_errors_uniform_pinned_false : ¬ CbcHmacErrorsUniform false := by
+  intro h
+  have h1 := h toyCipher (toyMac 32) 16 (zeros 32) (zeros 16) (List.replicate 16 1) (zeros 16) []
+    toyCipher_lawful (toyMac_lawful 32) (by decide) (by decide) (by decide) (by decide) (by decide) (by decide)
+  rw [d5_witness.1] at h1
+  exact absurd h1 (by decide)
+
+theorem cbcHmac_errors_uniform_iff (fixed : Bool) : CbcHmacErrorsUniform fixed ↔ fixed = true := by
+  cases fixed with
+  | true => exact ⟨fun _ => rfl, fun _ => cbcHmac_errors_uniform_fixed⟩
+  | false => exact ⟨fun h => absurd h cbcHmac_errors_uniform_pinned_false, fun h => by cases h⟩
+
+theorem ofNat_inj_of_lt (a b : Nat) (ha : a < 256) (hb : b < 256) (h : UInt8.ofNat a = UInt8.ofNat b) : a = b := by
+  have := congrArg UInt8.toNat h
+  simp only [UInt8.toNat_ofNat'] at this
+  omega
+
+theorem be32_inj (x y : Nat) (hx : x < 4294967296) (hy : y < 4294967296) (h : Bytes.be32 x = Bytes.be32 y) : x = y := by
+  simp only [Bytes.be32, List.cons.injEq, and_true] at h
+  obtain ⟨h0, h1, h2, h3⟩ := h
+  have a0 := ofNat_inj_of_lt _ _ (Nat.mod_lt _ (by decide)) (Nat.mod_lt _ (by decide)) h0
+  have a1 := ofNat_inj_of_lt _ _ (Nat.mod_lt _ (by decide)) (Nat.mod_lt _ (by decide)) h1
+  have a2 := ofNat_inj_of_lt _ _ (Nat.mod_lt _ (by decide)) (Nat.mod_lt _ (by decide)) h2
+  have a3 := ofNat_inj_of_lt _ _ (Nat.mod_lt _ (by decide)) (Nat.mod_lt _ (by decide)) h3
+  omega
+
+theorem be32_length (x : Nat) : (Bytes.be32 x).length = 4 := by simp [Bytes.be32]
+theorem be64_length (x : Nat) : (Bytes.be64 x).length = 8 := by simp [Bytes.be64, be32_length]
+
+theorem be64_inj (x y : Nat) (hx : x < 18446744073709551616) (hy : y < 18446744073709551616)
+    (h : Bytes.be64 x = Bytes.be64 y) : x = y := by
+  simp only [Bytes.be64] at h
+  obtain ⟨h1, h2⟩ := List.append_inj h (by simp [be32_length])
+  have a1 := be32_inj _ _ (Nat.mod_lt _ (by decide)) (Nat.mod_lt _ (by decide)) h1
+  have a2 := be32_inj _ _ (Nat.mod_lt _ (by decide)) (Nat.mod_lt _ (by decide)) h2
+  omega
+
+theorem aad_bits_lt (aad : Bytes) (h : aadTooLong aad = false) : aad.length * 8 < 18446744073709551616 := by
+  simp only [aadTooLong, decide_eq_false_iff_not, Nat.not_lt] at h
+  have : (2 ^ 64 - 1) / 8 = 2305843009213693951 := by decide
+  omega
+
+/-- the MAC input determines (aad, nonce, ciphertext) once the nonce length is fixed: the trailing
+    64-bit bit-length of the aad makes the framing unambiguous -/
+theorem macInput_injective (a n c a' n' c' : Bytes) (ha : aadTooLong a = false) (ha' : aadTooLong a' = false)
+    (hn : n.length = n'.length) (h : macInput a n c = macInput a' n' c') : a = a' ∧ n = n' ∧ c = c' := by
+  simp only [macInput] at h
+  obtain ⟨h1, h2⟩ := List.append_inj' h (by simp [be64_length])
+  have hl := be64_inj _ _ (aad_bits_lt a ha) (aad_bits_lt a' ha') h2
+  have hal : a.length = a'.length := by omega
+  rw [List.append_assoc, List.append_assoc] at h1
+  obtain ⟨e1, h3⟩ := List.append_inj h1 hal
+  obtain ⟨e2, e3⟩ := List.append_inj h3 hn
+  exact ⟨e1, e2, e3⟩
+
+
 end Askar.Aead.Lemmas
